@@ -455,10 +455,10 @@ def history_replay(spec):
 
 
 SUBS = [
-    Sub('fft', fft_case, fft_oracle, {'quick': 150, 'thorough': 3000}, {'quick': 2, 'thorough': 8}, doc='fft vs direct summation'),
-    Sub('relabel', relabel_case, relabel_oracle, {'quick': 200, 'thorough': 4000}, {'quick': 3, 'thorough': 8}, doc='i -> a*i+b per ensemble'),
-    Sub('rename', rename_case, rename_oracle, {'quick': 150, 'thorough': 3000}, {'quick': 2, 'thorough': 8}, doc='replica / ensemble renaming, argument order'),
-    Sub('affine', affine_case, affine_oracle, {'quick': 150, 'thorough': 3000}, {'quick': 2, 'thorough': 8}, doc='shift and scale of the data'),
-    Sub('history', None, history_replay, {'quick': 60, 'thorough': 600}, {'quick': 7, 'thorough': 16}, kind='machine',
+    Sub('fft', fft_case, fft_oracle, {'quick': 350, 'thorough': 3000}, {'quick': 2, 'thorough': 8}, doc='fft vs direct summation'),
+    Sub('relabel', relabel_case, relabel_oracle, {'quick': 450, 'thorough': 4000}, {'quick': 3, 'thorough': 8}, doc='i -> a*i+b per ensemble'),
+    Sub('rename', rename_case, rename_oracle, {'quick': 350, 'thorough': 3000}, {'quick': 2, 'thorough': 8}, doc='replica / ensemble renaming, argument order'),
+    Sub('affine', affine_case, affine_oracle, {'quick': 350, 'thorough': 3000}, {'quick': 2, 'thorough': 8}, doc='shift and scale of the data'),
+    Sub('history', None, history_replay, {'quick': 120, 'thorough': 600}, {'quick': 7, 'thorough': 16}, kind='machine',
         machine=history_machine, steps={'quick': 25, 'thorough': 40}, doc='model-based call histories'),
 ]
